@@ -46,6 +46,10 @@ theorem dagger_wf (d : Diagram) (h : d.WF) :
 theorem slice_wf (d d' : Diagram) (s t : Option Int) (hd : d.WF) (h : d.slice s t = .ok d') :
     d'.WF := Diagram.slice_wf s t hd h
 
+/-- Reversed slices `d[a:b:-1]` (the dagger is the case `a = b = None`). -/
+theorem slice_rev_wf (d d' : Diagram) (s t : Option Int) (hd : d.WF) (h : d.sliceRev s t = .ok d') :
+    d'.WF := Diagram.sliceRev_wf s t hd h
+
 theorem interchange_wf (d d' : Diagram) (i j : Int) (left : Bool) (hd : d.WF)
     (h : d.interchange i j left = .ok d') : d'.WF ∧ d'.dom = d.dom ∧ d'.cod = d.cod :=
   Diagram.interchange_wf hd h
